@@ -723,9 +723,7 @@ def pin_len(x):
         if n is not None:
             return n
         space = context_statespace()
-        if space.solver.check() != z3.sat:
-            raise RuntimeError("pin on infeasible/unknown path")
-        val = space.solver.model().eval(x.ln, model_completion=True)
+        val = _z.stable_values(space, [x.ln])[0]
         space.add(x.ln == val)
         _z.PINNED.append(("len", "iter"))
         x.ln = val
@@ -744,17 +742,14 @@ def pin(x, where=""):
             if c is not None:
                 return c
             space = context_statespace()
-            if space.solver.check() != z3.sat:
-                raise RuntimeError("pin on infeasible/unknown path")
-            mdl = space.solver.model()
-            n = mdl.eval(x.ln, model_completion=True)
+            vals = _z.stable_values(space, [x.ln] + list(x.chars))
+            n = vals[0]
             if not z3.is_int_value(x.ln):
                 space.add(x.ln == n)
                 if z3.is_const(x.ln):
                     SUBST.append((x.ln, n))
             out = []
-            for c in x.chars[: n.as_long()]:
-                v = mdl.eval(c, model_completion=True)
+            for c, v in zip(x.chars[: n.as_long()], vals[1:]):
                 if not z3.is_int_value(c):
                     space.add(c == v)
                     if z3.is_const(c):
